@@ -117,6 +117,15 @@ def run(fx, rep):
             rep.check(okk, 'R2', '%s/%s/%s' % (nm, F.norm_callee(t).rsplit('::', 1)[-1], '|'.join(sorted(F.term_str(x) for x in ts))), F.loc_of(t['span']),
                       'writes the map owned by *self', 'write through %s: not the scope\'s own map' % [F.term_str(x) for x in ts])
         rep.check(len(ins) == 2, 'R2', '%s/two-arms' % nm, wb.loc(), 'Root and Child arm each insert into their own map', '%d write sites' % len(ins))
+        # the new binding is written on every path: a skipped write leaves a stale value visible
+        wr = {bi for bi, t in wb.calls() if F.norm_callee(t) == 'std::collections::HashMap::insert'
+              and all(F.term_contains(x, lambda y: y == ('param', 3)) for x in wpv.of_operand(t['args'][2]))}
+        # a failed conversion of the value (`?`) legitimately returns without writing
+        errs = {bi for bi, t in wb.calls() if F.norm_callee(t) == 'std::ops::FromResidual::from_residual'}
+        rets = {bi for bi, _ in wb.terms('Return')}
+        leak = rets & wb.reachable_from([0], blocked=wr | errs)
+        rep.check(bool(wr) and not leak, 'R2', '%s/writes-on-every-path' % nm, wb.loc(), 'every path to the return inserts the given value',
+                  '%s can return without inserting the given value (%d insert site(s) of the parameter): a re-binding may be skipped and the old value stays visible' % (nm, len(wr)))
         # no &mut derived from parent
         muts = [s for _, _, s in wb.stmts() if s['k'] == 'Assign' and s['rv']['k'] == 'Ref' and s['rv']['mut'] and any(e.get('name') == 'parent' for e in s['rv']['place']['p'])]
         rep.check(not muts, 'R2', '%s/no-mutable-parent-access' % nm, wb.loc(), 'parent never borrowed mutably', 'mutable access through `parent`')
